@@ -165,6 +165,9 @@ def cmd_run(pid, tier, seed):
             if tmpl_ran:
                 print(f'note: known finding {fid} ({e["clause"]}) did not reproduce in this run (repaired, or outside this tier\'s templates)')
 
+    not_encodable = sorted({w for r in results for w in r['witnesses'] if str(w).startswith('NOT-ENCODABLE')})
+    for w in not_encodable:
+        print(f'note: {w} (that kernel decides nothing on this tree; the other templates of the property still gate)')
     for line in known_lines:
         print(line)
     for v, p in violation_lines:
@@ -222,6 +225,7 @@ def cmd_run(pid, tier, seed):
             stubs=_stubs(),
             outside_the_claim=meta.get('outside', []),
             inconclusive=errors,
+            not_encodable=not_encodable,
         ),
         assumptions=meta.get('assumptions', []) + COMMON_ASSUMPTIONS,
         wall_s=round(wall, 2),
